@@ -37,6 +37,7 @@ type Prog struct {
 	Pkgs    map[string]*packages.Package // every package in the import closure, by path
 	Overlay map[string][]byte
 	Env     []string
+	Inlined []string // what the helper inliner did (inline.go)
 
 	SSA     *ssa.Program
 	SSAPkgs map[string]*ssa.Package
@@ -48,11 +49,26 @@ type LoadOpts struct {
 	Overlay   map[string][]byte // absolute path -> contents (mutants for the self-test)
 	Env       []string          // extra environment (GOOS/GOARCH for the thorough tier)
 	AllSyntax bool              // also parse dependencies (needed for SSA)
+	noInline  bool              // internal: this is the reload after helper inlining
 }
 
 // Load type-checks ./... of the repository. It fails closed: zero packages,
 // any type error, or a missing anchor package is an error.
 func Load(o LoadOpts) (*Prog, error) {
+	p, err := loadRaw(o)
+	if err != nil {
+		return nil, err
+	}
+	for path, pk := range p.Pkgs {
+		if strings.HasPrefix(path, Mod) {
+			normalize(pk)
+		}
+	}
+	return p, nil
+}
+
+// loadRaw loads and type-checks without normalising the syntax trees.
+func loadRaw(o LoadOpts) (*Prog, error) {
 	mode := packages.LoadSyntax
 	if o.AllSyntax {
 		mode = packages.LoadAllSyntax
@@ -82,9 +98,33 @@ func Load(o LoadOpts) (*Prog, error) {
 		sort.Strings(errs)
 		return nil, fmt.Errorf("load: type errors in the repository: %s", strings.Join(errs, "; "))
 	}
-	for path, pk := range p.Pkgs {
-		if strings.HasPrefix(path, Mod) {
-			normalize(pk)
+	// helper inlining (inline.go): calls of unexported helpers that are not in the reviewed table are
+	// replaced by their bodies in an overlay and the program is loaded again, at most three times.
+	if !o.noInline {
+		for round := 0; round < 3; round++ {
+			ov, n := InlineOverlay(p.Pkgs, fset, readThrough(cfg.Overlay))
+			if n == 0 || len(ov) == 0 {
+				break
+			}
+			merged := map[string][]byte{}
+			for k, v := range cfg.Overlay {
+				merged[k] = v
+			}
+			for k, v := range ov {
+				merged[k] = v
+			}
+			o2 := o
+			o2.Overlay, o2.noInline = merged, true
+			p2, err := loadRaw(o2)
+			if err != nil {
+				// the rewritten sources do not type-check: keep the program as it is
+				p.Inlined = append(p.Inlined, "dropped: "+err.Error())
+				break
+			}
+			fset, cfg.Overlay = p2.Fset, merged
+			inl := append(p.Inlined, fmt.Sprintf("round %d: %d call(s) inlined in %d file(s)", round+1, n, len(ov)))
+			p = p2
+			p.Inlined = inl
 		}
 	}
 	for _, need := range []string{PkgGts, PkgSeqio, PkgCache, PkgMain} {
